@@ -93,8 +93,12 @@ class C12:
         if u < 0.36:
             pool = [e for e in AM_ENVS if e in only] or AM_ENVS
             return _plan_am(rc, st, pool[rc.randrange(len(pool))])
+        # OP is the one environment whose first-move feasibility depends on the instance: triple weight
         pool = [e for e in ROLLOUT_ENVS if e in only] or ROLLOUT_ENVS
-        return _plan_rollout(rc, st, pool[rc.randrange(len(pool))], tier)
+        name = pool[rc.randrange(len(pool))]
+        if "op" in pool and rc.random() < 0.2:
+            name = "op"
+        return _plan_rollout(rc, st, name, tier)
 
     @staticmethod
     def sample(run):
@@ -289,7 +293,7 @@ def _small_cfg(name, rc, tier):
     raise HarnessError("no small configuration drawn")
 
 
-def _op_far_nodes(rows, rc):
+def _op_far_nodes(rows, rc, lo_keep=1):
     """Hand-set OP max_length so that a scheduled number of customers cannot be reached as first move
     (round trip depot -> j -> depot longer than max_length).  Documented format is kept (DESIGN 2.3)."""
     out = []
@@ -298,7 +302,7 @@ def _op_far_nodes(rows, rc):
         d = (r["locs"] - r["depot"][None]).norm(dim=-1) * 2.0
         ds = sorted(d.tolist())
         n = len(ds)
-        keep = rc.randint(1, n)  # number of customers that stay reachable
+        keep = rc.randint(min(lo_keep, n), n)  # number of customers that stay reachable
         if keep >= n:
             ml = ds[-1] + 0.25
         else:
@@ -325,8 +329,8 @@ def _plan_rollout(rc, st, name, tier):
     B = rc.choice([1, 2, 2, 3, 3, 4])
     rows = E.gen_rows(env, cfg, B, st.torch_seed("instances"))
     hand = False
-    if name == "op" and rc.random() < 0.6:
-        rows = _op_far_nodes(rows, rc)
+    if name == "op" and rc.random() < 0.7:
+        rows = _op_far_nodes(rows, rc, rc.choice([1, 2, 2, 3]))
         hand = True
     td0 = E.reset(env, cfg, rows)
     try:
@@ -336,7 +340,9 @@ def _plan_rollout(rc, st, name, tier):
     if name in ("fjsp", "jssp"):
         gns = int(td0["action_mask"][:, 1:].sum(-1).min())
     nfeas = min(len(_feasible_starts(name, td0["action_mask"][b])) for b in range(B))
-    if name in START_RULE_ENVS:
+    if name == "op":
+        mode = rc.choice(["multistart_greedy", "multistart_sampling", "multistart_sampling", "multisample"])
+    elif name in START_RULE_ENVS:
         mode = rc.choice(["multistart_greedy", "multistart_sampling", "multisample"])
     elif name in TABLE_RULE_ENVS:
         mode = rc.choice(["multistart_greedy", "multistart_sampling"])
@@ -349,6 +355,8 @@ def _plan_rollout(rc, st, name, tier):
         k = max(1, min(rc.choice(cands), 12))
         if name in TABLE_RULE_ENVS:
             k = max(2, min(k, 6))
+        if name == "op" and hand and rc.random() < 0.6:
+            k = max(2, rc.randint(2, max(2, nfeas)))  # every row has >= k reachable customers, some unreachable
     return {"scenario": "rollout", "cfg": cfg, "instances": [E.enc_row(r) for r in rows], "hand_built": hand,
             "mode": mode, "k": k, "select_best": rc.random() < 0.5,
             "scripted_mode": rc.choice(["gaussian", "gaussian", "gaussian", "ties", "huge", "flat", "one_dominant"]),
